@@ -85,7 +85,7 @@ theorem run_ok_stores {i : Nat} {t : Task} (ht : pr.tasks[i]? = some t) (e : Env
 source stream as it was, the generates exist and the status (if any) holds, the next run
 executes no command (it is skipped). -/
 theorem C05_idem_checksum {i : Nat} {t : Task} (ht : pr.tasks[i]? = some t) (hm : t.method = .checksum)
-    (hsrc : t.sources.isEmpty = false) (e1 e2 : Env) (s0 : State)
+    (hsrc : t.sources.isEmpty = false) (e1 e2 : Env) (hc2 : e2.cancelled = false) (s0 : State)
     (hok : (invoke cfg H pr i .run e1 s0).2.exit = .ok)
     (hfp : fpNow H pr t (invoke cfg H pr i .run e1 s0).1.files = fpNow H pr t s0.files)
     (hgen : gensOk t (invoke cfg H pr i .run e1 s0).1.files = true)
@@ -98,7 +98,7 @@ theorem C05_idem_checksum {i : Nat} {t : Task} (ht : pr.tasks[i]? = some t) (hm 
   have hstored := sumCheck_stored H pr t s0
   rw [← hst1, ← hfp] at hstored
   generalize (invoke cfg H pr i .run e1 s0).1 = s1 at *
-  rw [invoke_run cfg H pr ht]
+  rw [invoke_run_plain cfg H pr ht e2 hc2]
   have hup : (isUpToDate H pr t false e2.now s1).2 = true := by
     rw [isUpToDate_sources H pr hsrc]
     simp only [srcCheck, hm, sumCheck_result, hgen, hstored]
@@ -112,7 +112,7 @@ rerun) and that the `status:` commands (if any) did not fail BEFORE the first ru
 task ran, it was the timestamp check that asked for it and touched the marker (TS2 touches the
 marker only then; see `C05_idem_timestamp_status_counterexample`). -/
 theorem C05_idem_timestamp {i : Nat} {t : Task} (ht : pr.tasks[i]? = some t) (hm : t.method = .timestamp)
-    (hsrc : t.sources.isEmpty = false) (e1 e2 : Env) (s0 : State)
+    (hsrc : t.sources.isEmpty = false) (e1 e2 : Env) (hc1 : e1.cancelled = false) (hc2 : e2.cancelled = false) (s0 : State)
     (hok : (invoke cfg H pr i .run e1 s0).2.exit = .ok)
     (hold : ∀ p ∈ srcsNow t (invoke cfg H pr i .run e1 s0).1.files,
       mtimeOf (invoke cfg H pr i .run e1 s0).1.files p ≤ e1.now)
@@ -124,7 +124,7 @@ theorem C05_idem_timestamp {i : Nat} {t : Task} (ht : pr.tasks[i]? = some t) (hm
   have hts : Ts t := ⟨hm, hsrc⟩
   -- the state after the first run is up to date as far as the timestamp check is concerned
   have hup1 : tsUp t (invoke cfg H pr i .run e1 s0).1 = true := by
-    rw [invoke_run cfg H pr ht] at hok hold hgen ⊢
+    rw [invoke_run_plain cfg H pr ht e1 hc1] at hok hold hgen ⊢
     by_cases hup0 : (isUpToDate H pr t false e1.now s0).2 = true
     · -- skipped: the check left the state alone, or created the marker
       rw [if_pos hup0]
@@ -147,7 +147,7 @@ theorem C05_idem_timestamp {i : Nat} {t : Task} (ht : pr.tasks[i]? = some t) (hm
       intro p hp
       exact Nat.le_trans (hold p hp) (le_maxOf _ _ hmem)
   generalize (invoke cfg H pr i .run e1 s0).1 = s1 at *
-  rw [invoke_run cfg H pr ht]
+  rw [invoke_run_plain cfg H pr ht e2 hc2]
   have hup : (isUpToDate H pr t false e2.now s1).2 = true := by
     rw [isUpToDate_ts H pr hts]
     simp only [hup1]
@@ -157,7 +157,7 @@ theorem C05_idem_timestamp {i : Nat} {t : Task} (ht : pr.tasks[i]? = some t) (hm
 
 /-- **C05_idem**, both methods. -/
 theorem C05_idem {i : Nat} {t : Task} (ht : pr.tasks[i]? = some t) (hmeth : t.method ≠ .none)
-    (hsrc : t.sources.isEmpty = false) (e1 e2 : Env) (s0 : State)
+    (hsrc : t.sources.isEmpty = false) (e1 e2 : Env) (hc1 : e1.cancelled = false) (hc2 : e2.cancelled = false) (s0 : State)
     (hok : (invoke cfg H pr i .run e1 s0).2.exit = .ok)
     (hunch : match t.method with
       | .checksum => fpNow H pr t (invoke cfg H pr i .run e1 s0).1.files = fpNow H pr t s0.files ∧
@@ -172,24 +172,25 @@ theorem C05_idem {i : Nat} {t : Task} (ht : pr.tasks[i]? = some t) (hmeth : t.me
   cases hm : t.method with
   | checksum =>
     rw [hm] at hunch
-    exact (C05_idem_checksum cfg H pr ht hm hsrc e1 e2 s0 hok hunch.1 hunch.2 hst).1
+    exact (C05_idem_checksum cfg H pr ht hm hsrc e1 e2 hc2 s0 hok hunch.1 hunch.2 hst).1
   | timestamp =>
     rw [hm] at hunch
-    exact (C05_idem_timestamp cfg H pr ht hm hsrc e1 e2 s0 hok hunch.1 hunch.2.1 hunch.2.2 hst).1
+    exact (C05_idem_timestamp cfg H pr ht hm hsrc e1 e2 hc1 hc2 s0 hok hunch.1 hunch.2.1 hunch.2.2 hst).1
   | none => exact absurd hm hmeth
 
 /-! ## What forces a run -/
 
 /-- the prompt (if any) is answered yes and nothing interferes with the commands (no kill, no
-failing command, no `task:` call that could fail on its precondition) -/
+failing command, no sibling whose failure cancels the run, no `task:` call that could fail on its
+precondition) -/
 def Calm (t : Task) (e : Env) : Prop :=
-  (t.prompt = false ∨ e.yes = true) ∧ e.killAt = none ∧ e.failAt = none ∧ ∀ c ∈ t.cmds, c.need = none
+  (t.prompt = false ∨ e.yes = true) ∧ e.killAt = none ∧ e.failAt = none ∧ e.cancelled = false ∧ ∀ c ∈ t.cmds, c.need = none
 
 theorem runBody_calm (i : Nat) (t : Task) (e : Env) (s : State) (hc : Calm t e) :
     (runBody cfg H pr i t false e s).2.ran = List.range' 0 t.cmds.length ∧
     (runBody cfg H pr i t false e s).2.exit = .ok ∧ (runBody cfg H pr i t false e s).2.skipped = false := by
-  obtain ⟨hp, hk, hf, hn⟩ := hc
-  have hl := cmdLoop_clean e hk hf t.cmds hn 0 (mkdirTask t s).files []
+  obtain ⟨hp, hk, hf, hcan, hn⟩ := hc
+  have hl := cmdLoop_clean e hk hf hcan t.cmds hn 0 (mkdirTask t s).files []
   unfold runBody
   have hcond : (t.prompt && !false && !e.yes) = false := by
     rcases hp with h | h <;> simp [h]
@@ -210,7 +211,7 @@ theorem run_not_upToDate {i : Nat} {t : Task} (ht : pr.tasks[i]? = some t) (e : 
     (invoke cfg H pr i .run e s).2.skipped = false ∧
     (Calm t e → (invoke cfg H pr i .run e s).2.ran = List.range' 0 t.cmds.length) := by
   rw [invoke_run cfg H pr ht, h]
-  simp only [Bool.false_eq_true, if_false]
+  simp only [Bool.false_and, Bool.false_eq_true, if_false]
   constructor
   · unfold runBody
     simp only
@@ -448,7 +449,7 @@ private def tMv : Task :=
 private def prMv : Proj :=
   { base := [(0, [100, 47, 97, 46, 101]), (1, [101, 47, 97, 46, 101])], dirOf := [], dirLen := [], tasks := [tMv] }
 private def sMv : State := { State.empty with files := [(0, ⟨[7], 5⟩)] }
-private def env (n : Nat) : Env := ⟨n, true, none, none⟩
+private def env (n : Nat) : Env := ⟨n, true, none, none, false⟩
 
 /- the same two files below a task directory `sub/` (directory 0, prefix length 4): paths
 `sub/d/a.e`, `sub/e/a.e`, names `d/a.e`, `e/a.e` -/
@@ -780,7 +781,7 @@ example :
     r1.2.exit = .ok ∧ r1.2.ran = [0] ∧ fpNow hId prMv tMv r1.1.files = fpNow hId prMv tMv sMv.files ∧
     gensOk tMv r1.1.files = true ∧ (invoke Cfg.fixed hId prMv 0 .run (env 20) r1.1).2.ran = [] := by decide
 
-example : Calm tMv (env 3) := ⟨Or.inl rfl, rfl, rfl, by decide⟩
+example : Calm tMv (env 3) := ⟨Or.inl rfl, rfl, rfl, rfl, by decide⟩
 
 /-- non-vacuity of `C05_idem_timestamp`: a first run that executes (marker at 10, generates written)
 and one with a `status:` that holds before and after; `C05_missing_generates` for method timestamp:
